@@ -12,6 +12,7 @@ work/c13/fix-polygon-contains.patch (i128 cross product, half-open rule) -> `pol
 else -> the tie is reported broken. VERIF_C13_ORIG=1 / VERIF_C13_ORIG=0 override (experiments only)."""
 import itertools, json, math, os, re
 from vlib import *
+from props.kernelcommon import kernel_tie_leg
 
 OPS = {"rect": 1, "poly": 2, "path": 3}
 ORIG = False
@@ -543,7 +544,8 @@ def run(chk, replay=None):
     POLY_OP = 4 if ORIG else 2
     for pr in VARIANT_PROBLEMS:
         chk.broken.append("tie C13: " + pr + " (compared with the repaired model)")
-    chk.proof_leg(["Geom/ContainsCheck.vo"], "Properties/C13.v", ["Geom/Contains_proofs.v"], "Properties.C13")
+    chk.proof_leg(["Geom/ContainsCheck.vo"], "Properties/C13.v", ["Geom/Contains_proofs.v", "Geom/KernelsTieContains_proofs.v"], "Properties.C13")
+    kernel_tie_leg(chk, "contains")       # generated-from-source kernels = the model functions (Properties/Kernels.v)
     chk.assumptions += [
         "isize is 64 bits; integer overflow is modelled as a distinct outcome (Ovf): C13_polygon holds for every returned answer with no coordinate bound, "
         "and C13_polygon_no_overflow excludes Ovf for |coordinate| < 2^62 (repaired code, i128 cross product); paths: |coordinate| < 2^62 and width < 2^62",
